@@ -273,6 +273,9 @@ func ruleGroupDelta(rule string) func(*Ctx) {
 			}
 		}
 		bad = lowestSentinel(lp)
+		if bad == "" {
+			bad = lowestStart(c, lp)
+		}
 		c.check(bad == "", rule, rule+":GetLowestPathInfo:per-path-area", lp.Pos(), "(Group).GetLowestPathInfo",
 			"the area sign is taken from the path that owns the lowest point (sentinel re-armed for every path)", bad,
 			"orientation of the whole group is the orientation of the path with the lowest vertex; taking it from another path flips delta and the fill rule when a hole is listed first")
@@ -2139,4 +2142,130 @@ func minkSigns(c *Ctx, f *ssa.Function) string {
 		return fmt.Sprintf("no point is built from path and pattern under isSum=%v", !seen["sum"])
 	}
 	return ""
+}
+
+// lowestStart: the running "lowest point so far" of the lowest-path scan either starts at the sentinel
+// {X: MaxInt64, Y: MinInt64} (which every vertex beats), or every comparison against it is made only once a lowest
+// point exists (a test of the carried index / a found-flag on the way). A zero-valued start compared unguarded makes
+// (0,0) the point to beat: input in the negative-Y half-plane has no lowest path.
+func lowestStart(c *Ctx, f *ssa.Function) string {
+	loops := naturalLoops(f)
+	if len(loops) != 2 {
+		return ""
+	}
+	inner, outer := loops[0], loops[1]
+	if len(inner.blocks) > len(outer.blocks) {
+		inner, outer = outer, inner
+	}
+	for _, b := range f.Blocks {
+		for _, in := range b.Instrs {
+			al, ok := in.(*ssa.Alloc)
+			if !ok || typeName(al.Type()) != "*Point64" {
+				continue
+			}
+			// updated inside the inner loop, read in comparisons there
+			updated, isRangeVar := false, false
+			var cmps []*ssa.BinOp
+			initX, initY := "zero", "zero"
+			for _, r := range *al.Referrers() {
+				switch x := r.(type) {
+				case *ssa.Store:
+					if x.Addr == ssa.Value(al) {
+						if inner.blocks[x.Block()] {
+							updated = true
+							if u, ok := x.Val.(*ssa.UnOp); ok && u.Op == token.MUL {
+								if _, isElem := u.X.(*ssa.IndexAddr); isElem {
+									isRangeVar = true // the loop's own element variable, not a running extremum
+								}
+							}
+						} else if !outer.blocks[x.Block()] {
+							initX, initY = "?", "?"
+							// botPt := Point64{X: ..., Y: ...}: the literal is built in a temporary and copied
+							if u, ok := x.Val.(*ssa.UnOp); ok && u.Op == token.MUL {
+								if tmp, ok := u.X.(*ssa.Alloc); ok {
+									initX, initY = "zero", "zero"
+									for _, tr := range *tmp.Referrers() {
+										if tfa, ok := tr.(*ssa.FieldAddr); ok {
+											for _, tr2 := range *tfa.Referrers() {
+												if ts, ok := tr2.(*ssa.Store); ok {
+													v := "?"
+													if k, ok := ts.Val.(*ssa.Const); ok && k.Value != nil {
+														v = k.Value.ExactString()
+													}
+													if fieldName(tfa.X.Type(), tfa.Field) == "X" {
+														initX = v
+													} else {
+														initY = v
+													}
+												}
+											}
+										}
+									}
+								}
+							}
+						}
+					}
+				case *ssa.FieldAddr:
+					fld := fieldName(x.X.Type(), x.Field)
+					for _, r2 := range *x.Referrers() {
+						switch y := r2.(type) {
+						case *ssa.Store:
+							if inner.blocks[y.Block()] {
+								updated = true
+							} else if !outer.blocks[y.Block()] {
+								v := "?"
+								if k, ok := y.Val.(*ssa.Const); ok && k.Value != nil {
+									v = k.Value.ExactString()
+								}
+								if fld == "X" {
+									initX = v
+								} else {
+									initY = v
+								}
+							}
+						case *ssa.UnOp:
+							for _, r3 := range *y.Referrers() {
+								if bo, ok := r3.(*ssa.BinOp); ok && inner.blocks[bo.Block()] {
+									switch bo.Op {
+									case token.LSS, token.GTR, token.LEQ, token.GEQ, token.EQL, token.NEQ:
+										cmps = append(cmps, bo)
+									}
+								}
+							}
+						}
+					}
+				}
+			}
+			if !updated || len(cmps) == 0 || isRangeVar {
+				continue
+			}
+			if initX == "9223372036854775807" && initY == "-9223372036854775808" {
+				continue // the sentinel every vertex beats
+			}
+			// otherwise each comparison needs "a lowest point exists" on the way
+			exists := func(v ssa.Value) bool {
+				bo, ok := v.(*ssa.BinOp)
+				if !ok {
+					if _, isPhi := v.(*ssa.Phi); isPhi {
+						return true // a found-flag
+					}
+					return false
+				}
+				k, isK := bo.Y.(*ssa.Const)
+				_, isPhi := bo.X.(*ssa.Phi)
+				return isK && isPhi && k.Value != nil && (k.Int64() == 0 || k.Int64() == -1) && isInt64orInt(bo.X.Type())
+			}
+			for _, bo := range cmps {
+				if !guardedBy(bo, true, exists) && !guardedBy(bo, false, exists) {
+					return fmt.Sprintf("the lowest point so far starts at {X: %s, Y: %s}, not at the sentinel {MaxInt64, MinInt64}, and is compared at %s before any lowest point exists: vertices are measured against that start value (input lying in the negative-Y half-plane has no lowest path, so the group's orientation is lost)", initX, initY, c.pos(bo.Pos()))
+				}
+			}
+		}
+	}
+	return ""
+}
+
+func isInt64orInt(t types.Type) bool {
+	bt, ok := t.Underlying().(*types.Basic)
+	return ok && bt.Info()&types.IsInteger != 0
 }
